@@ -8,7 +8,6 @@ claim("C22",
       "Oracle = CBE size table written from the specification (DESIGN.md A.1). Idempotence covers 8 document templates; big integers beyond 64 bits and times are not generated.",
       "DESIGN.md §5 C22")
 na("C03", "Both directions pass through the CTE decoder = ANTLR ATN interpreter over symbolic characters (about 40 kLoC generated tables + runtime); token shapes are grammar data, not Go code the engine can execute.")
-na("C06", "Untyped unmarshal is builder.* over reflect.New/MakeSlice/MapOf/SetMapIndex/Append and a reference filler: a reflection-defined heap outside the engine's value model.")
 na("C17", "Goroutine interleavings over sync.Map, WaitGroup and atomics: the engine has no concurrency semantics.")
 na("C20", "Pointer-graph discovery uses reflect.Value.Pointer, go-duplicates (unsafe) and deferred setter closures over reflected fields; graph isomorphism over a symbolic heap is outside the value model.")
 claim("C10",
@@ -23,6 +22,10 @@ claim("C21",
       "The real iterator Session/struct iterator and builder Session/BuilderEventReceiver/structBuilder run on the engine's reflect emulation. Marshal side: a struct type with every tag (omit, omit_empty, omit_zero, omit_never, name=, order=), an embedded struct, an unexported field and an acronym name, with symbolic field contents (uint64, string, []byte, *uint64), both name styles and three default omit behaviours; z3 shows the events are exactly the kept fields, once each, under the configured or tagged name, in tag order, validated by the real rules. Unmarshal side: maps whose keys are strings of 1..4 symbolic ASCII bytes are built into a struct; z3 shows each field holds the value of the last key that names it (exactly, or ignoring case, '_' and ' ' when case-insensitive matching is on), keys that match no field are skipped, other fields undisturbed.",
       "Struct *types* are fixed Go types (one per side): the quantifier over random struct types is not covered, only their contents, keys and configuration are symbolic. sync.Map/WaitGroup run in a sequential model. In case-sensitive mode the statement is silent about a key that equals a field's folded name; that case is left undecided. Non-ASCII keys are outside the bound.",
       "DESIGN.md §5 C21")
+claim("C06",
+      "Rules-valid event streams from templates with symbolic payloads (integers in all three event forms over all 64-bit values, floats, strings, typed arrays whole and chunked, nested lists/maps, nodes, edges, record types + records, markers with backward/forward references to scalars, lists, maps and as map keys, comments and padding) are unmarshaled with no template by the real builder Session/BuilderEventReceiver (interface, list, map, record, marker builders, reference filler) and marshaled again by the real iterator Session; z3 shows unmarshal and marshal never fail and the two value trees are equal (integers by value, maps unordered, records as maps, references replaced by targets, comments dropped).",
+      "Streams are delivered as events after the real rules validator accepted them; the byte decoders in front are covered by C01/C07/C09. reflect/sync.Map/WaitGroup are the engine's emulation / sequential model. Big numbers, times, media, custom types, resource ids, NaN, deeper nesting and arbitrary event histories are not generated. Open finding: documents containing an edge cannot be unmarshaled (KF-C06-edge-end-rejected).",
+      "DESIGN.md §5 C06")
 
 # everything else that is planned but has no check yet
 PLANNED = ["C%02d" % k for k in range(1, 30)]
